@@ -1,7 +1,7 @@
 (** Prop_C13.v -- C13: idle channels are swept completely and the store
     returns to empty. *)
 From MW Require Import Base Store Monad Usage Server Websocket Service Inv Obs
-     StepFacts SweepFacts TimeInv Corollaries QuiesceFacts Inst_Params Inst_Timer.
+     StepFacts SweepFacts TimeInv Corollaries QuiesceFacts Inst_Params Inst_Timer IdleFacts.
 From MWGen Require GenParams.
 Local Open Scope list_scope.
 
@@ -61,6 +61,32 @@ Print Assumptions C13_store_returns_to_empty.
 
 (** the repository's constants satisfy the hypotheses, and the period is shorter
     than the expiration time *)
+(** ** "no activity for longer than the expiration time" at history level (IdleFacts.v): a mailbox's stamp moves
+    ONLY by activity concerning it ([moves]: a claim / allocate / open / add / fresh close of that mailbox by a
+    connection of its app -- completed or cut short by a crash) or by a sweep at which it has a subscriber, and
+    then to the time of that event; so over a history that is idle for it the stamp is constant, and the
+    fault-free sweep firing at or after stamp + exp deletes it with its messages, side records and nameplate *)
+Theorem C13_stamp_moves_only_by : ltac:(let t := type of stamp_moves_only_by in exact t).
+Proof. exact stamp_moves_only_by. Qed.
+Check C13_stamp_moves_only_by.
+Print Assumptions C13_stamp_moves_only_by.
+
+Theorem C13_idle_stamp_constant : ltac:(let t := type of idle_stamp_constant in exact t).
+Proof. exact idle_stamp_constant. Qed.
+Check C13_idle_stamp_constant.
+Print Assumptions C13_idle_stamp_constant.
+
+Theorem C13_idle_is_swept : ltac:(let t := type of idle_is_swept in exact t).
+Proof. exact idle_is_swept. Qed.
+Check C13_idle_is_swept.
+Print Assumptions C13_idle_is_swept.
+
+Theorem C13_idle_is_swept_timer : ltac:(let t := type of idle_is_swept_timer in exact t).
+Proof. exact idle_is_swept_timer. Qed.
+Check C13_idle_is_swept_timer.
+Print Assumptions C13_idle_is_swept_timer.
+
+
 Example C13_constants_ok : GenParams.gen_period < GenParams.gen_exp.
 Proof. exact gen_period_lt_exp. Qed.
 
